@@ -20,9 +20,12 @@ class Metric(evaluation.Metric):
         return worker
 
 
-def step(expr, action, registry, shift=0, snapshot=False):
+def step(expr, action, registry, shift=0, snapshot=False, sink=False):
     """One lifecycle action on a fresh expansion; returns the (possibly extended) registry and an observation."""
     c03.HP_SHIFT, c03.SNAPSHOT = shift, snapshot
+    if sink and action[0] != 'train':
+        # like Launcher.apply vs Launcher.train_call: something is composed after the pipeline only when not training
+        expr = ['seq', expr, ['op', {'apply': ['probe', 0, False], 'train': 'same'}]]
     pipeline = c03.make_expr(expr)
     if action[0] == 'perftrack':
         pipeline = pipeline >> evaluation.PerfTrackScore(Metric())
@@ -115,7 +118,7 @@ def observe(case):
     registry, steps = [], []
     for k, action in enumerate(case['history']):
         payload = json.dumps({'expr': case['expr'], 'action': action, 'registry': registry,
-                              'shift': case.get('shift', {}).get(str(k), 0), 'snapshot': bool(case.get('shift'))})
+                              'shift': case.get('shift', {}).get(str(k), 0), 'snapshot': bool(case.get('shift')), 'sink': bool(case.get('sink_on_apply'))})
         env = core.impl_env({'PYTHONHASHSEED': str(1 + (k * 7919) % 1000)})
         res = subprocess.run(['/venv/bin/python', '-W', 'ignore', '-m', 'harness.impl.c04'], input=payload, env=env,
                              capture_output=True, text=True, cwd=str(core.ROOT), timeout=300)
@@ -132,5 +135,5 @@ if __name__ == '__main__':
 
     logging.disable(logging.CRITICAL)
     request = json.loads(sys.stdin.read())
-    reg, obs = step(request['expr'], request['action'], request['registry'], request.get('shift', 0), request.get('snapshot', False))
+    reg, obs = step(request['expr'], request['action'], request['registry'], request.get('shift', 0), request.get('snapshot', False), request.get('sink', False))
     print(json.dumps({'registry': reg, 'obs': obs}))
